@@ -229,9 +229,22 @@ class PythonPrinter:
         current_state = self.backslashed or self.triplequoted
 
         self.backslashed = bool(re.search(r"\\$", line))
-        triples = len(re.findall(r"\"\"\"|\'\'\'", line))
-        if triples == 1 or triples % 2 != 0:
-            self.triplequoted = not self.triplequoted
+
+        # follow the triple quotes on the line the same way
+        # adjust_whitespace() does: the kind of quote that opened a string
+        # closes it, and a comment ends the line
+        while line:
+            if self.triplequoted:
+                m = re.match(r".*?%s" % self.triplequoted, line)
+                if not m:
+                    break
+                self.triplequoted = False
+            else:
+                m = re.match(r".*?(\"\"\"|\'\'\'|#)", line)
+                if not m or m.group(1) == "#":
+                    break
+                self.triplequoted = m.group(1)
+            line = line[m.end() :]
 
         return current_state
 
